@@ -91,3 +91,110 @@ Definition accept (x : input) : verdict :=
       end
     end
   end.
+
+(* ====================================================================================================
+   The whole message (strengthening round 2).  [input]/[accept] above describe ONE shape of message: HTTP-POST
+   delivery, one Conditions element, one bearer SubjectConfirmation with data, one AuthnStatement.  Below the
+   shape is an input too: how the Response was delivered, whether it names a Destination, whether the assertion
+   arrives encrypted (parse_assertion applies the same _assertion() to both kinds), whether it has Conditions, and ANY NUMBER of bearer confirmations and AuthnStatements (document order).
+   Mirrors: entity._parse_response (asynchop from the binding), Entity.unravel (bindings it can unpack),
+   StatusResponse._verify (issue_instant_ok for every delivery), AuthnResponse.authn_statement_ok (exactly one
+   AuthnStatement), condition_ok (no Conditions -> fine), get_subject (loop over the confirmations),
+   session_info.  [xaccept_widen] (C05/Proofs.v): on the old shape it is [accept]. *)
+Inductive binding := BPost | BRedirect | BSoap | BPaos.
+
+(* entity._parse_response: kwargs["asynchop"] = binding not in [BINDING_SOAP, BINDING_PAOS] *)
+Definition asynchop (b : binding) : bool := match b with BSoap | BPaos => false | _ => true end.
+(* Entity.unravel: PAOS is not among the bindings it unpacks (UnknownBinding) *)
+Definition unravels (b : binding) : bool := match b with BPaos => false | _ => true end.
+
+Definition window := (option stamp * option stamp)%type.      (* NotBefore, NotOnOrAfter *)
+
+Record message := {
+  m_binding : binding;
+  m_destination : option bool;               (* Response/@Destination: None absent, Some true: the SP's endpoint
+                                                for that binding, Some false: somebody else's address *)
+  m_encrypted : bool;                        (* the assertion arrives as an EncryptedAssertion (for the SP's key) *)
+  m_issue : stamp;                           (* Response/@IssueInstant *)
+  m_conditions : option window;              (* None: the assertion has no Conditions element *)
+  m_confirmations : list (option window);    (* bearer SubjectConfirmations; None: without SubjectConfirmationData *)
+  m_statements : list (option stamp)         (* SessionNotOnOrAfter of each AuthnStatement *)
+}.
+Record xinput := { xnow : Z; xatd : option Z; xm : message }.
+
+(* StatusResponse._verify: the Destination is looked at only on the asynchronous path, and only when present;
+   the IssueInstant on EVERY path.  false = returns None / False *)
+Definition verify_ok (n sl : Z) (m : message) : bool :=
+  (if asynchop (m_binding m) then match m_destination m with Some false => false | _ => true end else true)
+  && issue_instant_ok n sl (m_issue m).
+
+(* authn_statement_ok(): anything but exactly one AuthnStatement raises ValueError; None = raises;
+   Some v = self.session_not_on_or_after afterwards (0: not set) *)
+Definition statements_ok (n sl : Z) (sts : list (option stamp)) : option Z :=
+  match sts with
+  | [b] => validate_on_or_after n sl b
+  | _ => None
+  end.
+
+(* condition_ok(): None = returns False or raises; Some v = self.not_on_or_after afterwards *)
+Definition conditions_ok (n sl : Z) (c : option window) : option Z :=
+  match c with
+  | None => Some 0
+  | Some (nb, nooa) =>
+      if match nb, nooa with Some _, Some _ => negb (later_than nooa nb) | _, _ => false end then None else
+      match validate_on_or_after n sl nooa with
+      | None => None
+      | Some v => if validate_before n sl nb then Some v else None
+      end
+  end.
+
+(* _bearer_confirmed(data): raises (the two validate functions), returns False (no data / bounds out of order), or True *)
+Inductive confirm := CRaise | CSkip | CKeep.
+Definition bearer_confirmed (n sl : Z) (d : option window) : confirm :=
+  match d with
+  | None => CSkip
+  | Some (nb, nooa) =>
+      match validate_on_or_after n sl nooa with
+      | None => CRaise
+      | Some _ => if negb (validate_before n sl nb) then CRaise
+                  else if later_than nooa nb then CKeep else CSkip
+      end
+  end.
+
+(* get_subject(): the loop; an exception ends everything, a confirmation that is not confirmed is dropped, and
+   at least one has to remain ("No valid subject confirmation") *)
+Fixpoint confirmations_ok (n sl : Z) (l : list (option window)) (kept : bool) : bool :=
+  match l with
+  | [] => kept
+  | d :: r => match bearer_confirmed n sl d with
+              | CRaise => false
+              | CSkip => confirmations_ok n sl r kept
+              | CKeep => confirmations_ok n sl r true
+              end
+  end.
+
+Definition xaccept (x : xinput) : verdict :=
+  let sl := timeslack (xatd x) in
+  let n := xnow x in
+  let m := xm x in
+  if negb (unravels (m_binding m)) then Reject else
+  if negb (verify_ok n sl m) then Reject else
+  match statements_ok n sl (m_statements m) with
+  | None => Reject
+  | Some session =>
+    match conditions_ok n sl (m_conditions m) with
+    | None => Reject
+    | Some nooa =>
+      if confirmations_ok n sl (m_confirmations m) false
+      then Accept (if session >? 0 then session else nooa)
+      else Reject
+    end
+  end.
+
+(* the old shape as a message *)
+Definition widen (x : input) : xinput :=
+  {| xnow := now x; xatd := atd x;
+     xm := {| m_binding := BPost; m_destination := Some true; m_encrypted := false; m_issue := issue (t x);
+              m_conditions := Some (cnb (t x), cnooa (t x));
+              m_confirmations := [Some (snb (t x), snooa (t x))];
+              m_statements := [sess (t x)] |} |}.
